@@ -148,7 +148,9 @@ def run(ctx):
               expr="sorted copy", site="FuncSorted.execute: result = lst.value[:]")
     # exchange guarded by a strict comparison
     ifs = [n for n in ast.walk(fs.node) if isinstance(n, ast.If) and "comparison" in norm(n.test)]
-    ok = len(ifs) == 1 and norm(ifs[0].test) == "comparison < 0" and len(ifs[0].orelse) == 1 \
+    ifs = [n for n in ifs if _as_lt(n.test) is not None]
+    ok = len(ifs) == 1 and _as_lt(ifs[0].test) in (("comparison < 0".split(" < ")[0], "0"), ("comparison.value", "0")) \
+        and len(ifs[0].orelse) == 1 \
         and isinstance(ifs[0].orelse[0], ast.Break)
     ctx.check("C07.sorted", fs, ifs[0] if ifs else None, ok,
               "elements are exchanged on a non-strict comparison or the scan does not stop at the first "
